@@ -11,8 +11,8 @@ from ref import cms, gkdi
 ID = "C19"
 LEVEL = "model_checking"
 RULE = (
-    "every history of length <=4 (quick) / <=5 (thorough) over 6 operations {protect(P1,SID1), protect(P2,SID1), protect(P1,SID2), unprotect(latest output), protect in public-key mode via the "
-    "reference DC with a DH root key, same with ECDH_P256} (repeating an operation = identical arguments) x cache {shared along the history, fresh per call} x {sync, async} x clock {fixed, advancing one L2 "
+    "every history of length <=4 (quick) / <=5 (thorough) over 7 operations {protect(P1,SID1), protect(P2,SID1), protect(P1,SID2), unprotect(latest output), protect in public-key mode via the "
+    "reference DC with a DH root key, same with ECDH_P256, protect naming a root key whose seed keys come from the DC and are then cached}; all tuples of 2..3 such protects IN FLIGHT CONCURRENTLY (async, one shared cache, replies released FIFO/LIFO) (repeating an operation = identical arguments) x cache {shared along the history, fresh per call} x {sync, async} x clock {fixed, advancing one L2 "
     "interval per call}; each history is run under a logging entropy source that never repeats a block (os.urandom and AESGCM.generate_key seams) and again under the real sources. From every emitted blob "
     "the GCM nonce, key_info (nonce / ephemeral public key), the CEK (unwrapped with the reference KEK) and the ciphertext are extracted. Oracle: within a history all CEKs, all GCM nonces and all key_infos "
     "are pairwise distinct, equal plaintexts give different ciphertexts, GCM nonce is 12 bytes and the key-id nonce 32. state = history prefix; transition = one API call. Non-trivial = histories with >= 2 protects."
@@ -22,7 +22,7 @@ BOUND = {"quick": "depth 3 over all 6 ops + depth 4 over the 4 nonce-mode ops", 
 
 SID1, SID2 = "S-1-5-21-1-2-3-1104", "S-1-5-21-1-2-3-1105"
 P1, P2 = b"plaintext-one", b"plaintext-two!"
-OPS = ["A", "B", "C", "U", "D", "E"]
+OPS = ["A", "B", "C", "U", "D", "E", "F"]  # F: protect naming a root key the cache does not hold: first call fetches seed keys from the DC, later ones hit the cache
 NOW = (361, 10, 12)
 FT0 = NOW[0] * 1024 * gkdi.B + NOW[1] * 32 * gkdi.B + NOW[2] * gkdi.B + 7
 
@@ -32,8 +32,8 @@ _w: t.Dict[str, t.Any] = {}
 def world(seed: int):
     if _w.get("seed") != seed:
         d = seams.Drbg(("C19", seed))
-        _w.update(seed=seed, rkN=seams.make_root(d, "SHA512"), rkD=seams.make_root(d, "SHA256", "DH"), rkE=seams.make_root(d, "SHA384", "ECDH_P256"))
-        _w["by_id"] = {r.rkid: r for r in (_w["rkN"], _w["rkD"], _w["rkE"])}
+        _w.update(seed=seed, rkN=seams.make_root(d, "SHA512"), rkD=seams.make_root(d, "SHA256", "DH"), rkE=seams.make_root(d, "SHA384", "ECDH_P256"), rkS=seams.make_root(d, "SHA256"))
+        _w["by_id"] = {r.rkid: r for r in (_w["rkN"], _w["rkD"], _w["rkE"], _w["rkS"])}
     return _w
 
 
@@ -45,13 +45,15 @@ def run_history(w, hist: str, shared: bool, api: str, advancing: bool, real_entr
     """-> list of (op, status, value)"""
     import dpapi_ng
 
-    dc = refdc.DC([w["rkD"], w["rkE"], w["rkN"]], now=NOW, authorised=False)
+    dc = refdc.DC([w["rkD"], w["rkE"], w["rkN"], w["rkS"]], now=NOW, authorised=False)
+    dc.authorised_roots = {w["rkS"].rkid}
     cache = seams.make_cache(w["rkN"])
 
     def all_roots():
         c = seams.make_cache(w["rkN"])
         seams.load_root(c, w["rkD"])
         seams.load_root(c, w["rkE"])
+        seams.load_root(c, w["rkS"])
         return c
 
     cache_u = all_roots()  # unprotect needs the root key of whichever blob came last (public-key blobs cannot be opened by the unauthorised caller)
@@ -79,7 +81,7 @@ def run_history(w, hist: str, shared: bool, api: str, advancing: bool, real_entr
                         kw["cache"] = cache_u
                     else:
                         f = (dpapi_ng.ncrypt_protect_secret, dpapi_ng.async_ncrypt_protect_secret)[api == "async"]
-                        pt, sid, rk = {"A": (P1, SID1, "rkN"), "B": (P2, SID1, "rkN"), "C": (P1, SID2, "rkN"), "D": (P1, SID1, "rkD"), "E": (P1, SID1, "rkE")}[op]
+                        pt, sid, rk = {"A": (P1, SID1, "rkN"), "B": (P2, SID1, "rkN"), "C": (P1, SID2, "rkN"), "D": (P1, SID1, "rkD"), "E": (P1, SID1, "rkE"), "F": (P1, SID1, "rkS")}[op]
                         args = (pt, sid)
                         kw["root_key_identifier"] = w[rk].rkid
                     v = f(*args, **kw) if api == "sync" else vloop.run(f(*args, **kw))
@@ -101,9 +103,13 @@ def run_history(w, hist: str, shared: bool, api: str, advancing: bool, real_entr
 _PROCESS_SEEN: t.Dict[str, t.Dict[bytes, t.Any]] = {"cek": {}, "gcm-nonce": {}, "key_info": {}}
 
 
-def judge(acc, w, hist: str, shared: bool, api: str, advancing: bool, real_entropy: bool, shard_case=None) -> None:
-    case = ["hist", hist, shared, api, advancing, real_entropy]
-    res, ent = run_history(w, hist, shared, api, advancing, real_entropy)
+def judge(acc, w, hist: str, shared: bool, api: str, advancing: bool, real_entropy: bool, shard_case=None, concurrent=None) -> None:
+    if concurrent is not None:
+        case = ["conc", hist, concurrent, real_entropy]
+        res, ent = run_concurrent(w, hist, concurrent, real_entropy)
+    else:
+        case = ["hist", hist, shared, api, advancing, real_entropy]
+        res, ent = run_history(w, hist, shared, api, advancing, real_entropy)
     ceks: t.List[bytes] = []
     nonces: t.List[bytes] = []
     infos: t.List[bytes] = []
@@ -156,8 +162,51 @@ def judge(acc, w, hist: str, shared: bool, api: str, advancing: bool, real_entro
         acc.stat_max("entropy_draws_logged", len(ent.log))
 
 
+def run_concurrent(w, ops: str, lifo: bool, real_entropy: bool):
+    """several async protect calls in flight at once on one shared cache (virtual loop, replies held back and then released FIFO / LIFO)"""
+    import dpapi_ng
+
+    dc = refdc.DC([w["rkD"], w["rkE"], w["rkN"], w["rkS"]], now=NOW, authorised=False)
+    dc.authorised_roots = {w["rkS"].rkid}
+    cache = dpapi_ng.KeyCache()  # no root key: every call has to go to the DC
+    ent = seams.Entropy(b"C19c")
+    loop = vloop.VirtualLoop()
+    out: t.List[t.Tuple[str, str, t.Any]] = []
+
+    def go():
+        with seams.clock(FT0), transport.network(dc, defer=True) as hub, secctx.scripted_client(_ctx):
+            def idle() -> bool:
+                if not hub.pending:
+                    return False
+                if lifo:
+                    hub.pending.insert(0, hub.pending.pop())
+                return hub.release_chunk()
+
+            loop.on_idle = idle
+            coros = []
+            for op in ops:
+                pt, sid, rk = {"A": (P1, SID1, "rkS"), "B": (P2, SID1, "rkS"), "C": (P1, SID2, "rkS"), "D": (P1, SID1, "rkD"), "E": (P1, SID1, "rkE"), "F": (P1, SID1, "rkS")}[op]
+                coros.append(dpapi_ng.async_ncrypt_protect_secret(pt, sid, root_key_identifier=w[rk].rkid, server="dc", username="u", password="p", auth_protocol="ntlm", cache=cache))
+            try:
+                res = loop.run_many(coros)
+            except vloop.Deadlock as e:
+                res = [("exc", e)] * len(ops)
+            for op, (st, v) in zip(ops, res):
+                out.append((op, "ok", bytes(v)) if st == "ok" else (op, "exc", repr(v)))
+
+    try:
+        if real_entropy:
+            go()
+        else:
+            with seams.entropy(ent):
+                go()
+    finally:
+        loop.shutdown()
+    return out, ent
+
+
 def shards(tier: str, seed: int):
-    out = [["long", api] for api in ("sync", "async")]
+    out = [["long", api] for api in ("sync", "async")] + [["conc"]]
     depth = 4 if tier == "quick" else 5
     for first in OPS:
         for shared in (True, False):
@@ -171,6 +220,19 @@ def run_shard(shard, tier, seed, acc) -> None:
     w = world(seed)
     for d_ in _PROCESS_SEEN.values():
         d_.clear()  # per shard, so that a shard is a self-contained, replayable unit
+    if shard[0] == "conc":
+        n = 0
+        for k in (2, 3):
+            for ops in itertools.product("AFDE", repeat=k):
+                for lifo in (False, True):
+                    for real in (False, True):
+                        judge(acc, w, "".join(ops), True, "async", False, real, None, concurrent=lifo)
+                        n += 1
+                        acc.ev()
+                        acc.states += 1
+                        acc.transitions += k
+        acc.sample({"concurrent async protects on one cache": "all tuples of 2..3 calls over {A,F,D,E}", "delivery": ["FIFO", "LIFO"]})
+        return
     if shard[0] == "long":
         # one long history (N protects with identical / alternating arguments, far beyond the depth bound) under both entropy sources
         for hist in ("A" * 256, "AB" * 40 + "U" + "AC" * 24, "E" * 12 + "D" * 6):
@@ -185,8 +247,8 @@ def run_shard(shard, tier, seed, acc) -> None:
     n = 0
     for k in range(0, depth):
         # the deepest level is explored over the nonce-mode alphabet only (public-key calls cost ~10 ms each); all shallower levels in full
-        alpha = OPS if k < depth - 1 else [o for o in OPS if o in "ABCU"]
-        if k == depth - 1 and first not in "ABCU":
+        alpha = OPS if k < depth - 1 else [o for o in OPS if o in "ABCUF"]
+        if k == depth - 1 and first not in "ABCUF":
             continue
         for rest in itertools.product(alpha, repeat=k):
             hist = first + "".join(rest)
@@ -207,6 +269,9 @@ def run_shard(shard, tier, seed, acc) -> None:
 def replay(case, seed, acc) -> None:
     seams.block_network()
     acc.ev()
+    if case[0] == "conc":
+        judge(acc, world(seed), case[1], True, "async", False, case[3], None, concurrent=case[2])
+        return
     _, hist, shared, api, advancing, real = case
     judge(acc, world(seed), hist, shared, api, advancing, real)
 
